@@ -367,6 +367,7 @@ def run(ctx):
     # ------------------------------------------------------------ R13.5 pruners: no direction-naive comparison of two value-derived operands
     ctx.rule("R13.5", "pruners: an order comparison whose operands are both derived from reported/objective values sits inside the arms of a direction site")
     n_cmp = 0
+    n_signed = 0
     for f in p.iter_funcs(("optuna.pruners",)):
         fsites = [x for x in sites if x.func is f and x.kind in ("if", "ifexp")]
         if not fsites:
@@ -422,7 +423,21 @@ def run(ctx):
                     ctx.check(inside, "R13.5", f.short, f"value-comparison-in-site:{norm(n)[:40]}",
                               message=f"{f.name}: `{norm(n)[:70]}` orders two quantities derived from reported values outside any direction branch: the same "
                                       f"comparison is used for maximize and minimize", how="comparison is inside the arms of a direction site", where=where(f, n))
+        # sign-asymmetric predicates and extremum selectors applied to reported values must be inside the arms
+        # too (sorting is direction-free as long as the index taken afterwards is mirrored - idiom `idx`)
+        SIGNED = {"isposinf", "isneginf", "signbit", "nanmax", "nanmin", "amax", "amin", "max", "min", "argmax", "argmin",
+                  "nanargmax", "nanargmin", "maximum", "minimum"}
+        for n in own_nodes(f.node):
+            if isinstance(n, ast.Call) and (dotted(n.func) or "").split(".")[-1] in SIGNED and any(is_tainted(a) for a in n.args):
+                # `x.max()` style has the tainted operand as receiver
+                inside = any(a in site_nodes for a in ancestors(n, pm)) or any(any(y is n for y in ast.walk(r_)) for r_ in rests)
+                n_signed += 1
+                ctx.check(inside, "R13.5", f.short, f"signed-op-in-site:{norm(n)[:40]}",
+                          message=f"{f.name}: `{norm(n)[:70]}` treats large and small reported values differently (extremum / sign of infinity) outside any "
+                                  f"direction branch: maximize f and minimize -f are no longer mirror images", how="call is inside the arms of a direction site",
+                          where=where(f, n))
     ctx.floor("R13.5", "value_comparisons_in_pruners", n_cmp, 4)
+    ctx.count("R13.5", "signed_ops_in_pruners", n_signed)
 
     # ------------------------------------------------------------ R13.6 direction-naive consumers of raw objective values
     ctx.rule("R13.6", "samplers / multi-objective code: a function that reads raw trial values and applies an order-sensitive operation "
